@@ -74,9 +74,14 @@ pub struct Case {
     pub passwords: Vec<String>,
 }
 
-pub const BOUNDARY: [&str; 15] = [
+pub const BOUNDARY: [&str; 20] = [
     "-9223372036854775808",
     "-2147483649",
+    "-2147483648",
+    "2147483640",
+    "4294967290",
+    "9223372036854775800",
+    "18446744073709551610",
     "-1",
     "0",
     "1",
@@ -636,7 +641,7 @@ fn kind_of(m: &Mutation) -> &'static str {
     }
 }
 
-fn gen_mutation(r: &mut Rng, len: usize, structured: bool) -> Mutation {
+fn gen_mutation(r: &mut Rng, len: usize, structured: bool, present: &[usize]) -> Mutation {
     let len = len.max(1);
     // bias positions to the tail (xref / trailer) and to block boundaries
     let pos = |r: &mut Rng| match r.below(4) {
@@ -653,7 +658,11 @@ fn gen_mutation(r: &mut Rng, len: usize, structured: bool) -> Mutation {
         4 => Mutation::DupBlock { pos: pos(r), len: *r.pick(&[1usize, 20, 512]) },
         5 => Mutation::SwapBlocks { a: pos(r), b: pos(r), len: *r.pick(&[8usize, 64, 512]) },
         6 => Mutation::SpliceRandom { pos: pos(r), len: 1 + r.usize_below(64), seed: r.next_u64() },
-        7 | 8 | 9 | 10 => Mutation::KeySlot { key: KEYS[r.usize_below(KEYS.len())].to_string(), nth: r.usize_below(16), value: BOUNDARY[r.usize_below(BOUNDARY.len())].to_string() },
+        7 | 8 | 9 | 10 => {
+            // three times in four a key that actually occurs in the (unmutated) base
+            let k = if !present.is_empty() && r.chance(3, 4) { present[r.usize_below(present.len())] } else { r.usize_below(KEYS.len()) };
+            Mutation::KeySlot { key: KEYS[k].to_string(), nth: r.usize_below(16), value: BOUNDARY[r.usize_below(BOUNDARY.len())].to_string() }
+        }
         11 | 12 | 13 => Mutation::IntToken { nth: r.usize_below(4000), value: BOUNDARY[r.usize_below(BOUNDARY.len())].to_string() },
         14 => Mutation::InsertInDict {
             nth: r.usize_below(64),
@@ -721,6 +730,24 @@ fn gen_case(cs: u64, tier: Tier, ctx: &ExecCtx) -> Case {
         13..=17 => Base::Skeleton { seed: r.next_u64() },
         _ => Base::Random { len: r.usize_below(2048), seed: r.next_u64() },
     };
+    // header-field sweep (one case in four): a small synthetic file that has an xref stream and an
+    // object stream, stored intact except for ONE numeric dictionary slot of a key it really contains,
+    // set to a machine-integer boundary, read through a fault-free source
+    let sweep = r.chance(1, 4);
+    let base = if sweep {
+        // half of them single-revision, so that nothing redefines the compressed objects later
+        let max_updates = if r.chance(1, 2) { 0 } else { 2 };
+        let mut spec = gen_spec(&mut r, &GenOpts { max_updates, allow_objstm: true, allow_xref_stream: true, allow_free: true });
+        for _ in 0..24 {
+            if spec.revisions.iter().any(|rev| rev.xref_stream && rev.ops.iter().any(|o| matches!(o, crate::synth::ObjOp::Define { in_objstm: true, .. }))) {
+                break;
+            }
+            spec = gen_spec(&mut r, &GenOpts { max_updates, allow_objstm: true, allow_xref_stream: true, allow_free: true });
+        }
+        Base::Synth(spec)
+    } else {
+        base
+    };
     let structured = !matches!(base, Base::Random { .. });
     let approx_len = match &base {
         Base::Random { len, .. } => *len,
@@ -728,14 +755,22 @@ fn gen_case(cs: u64, tier: Tier, ctx: &ExecCtx) -> Case {
     };
     // the base may be produced by library code (the writer): run it under an owned environment,
     // or the real clock (dates inside compressed streams) would leak into the generated case
-    let len_for_pos = {
+    let (len_for_pos, present) = {
         let b2 = base.clone();
         let o = in_case_thread(ctx, &ProcEnv::fixed(mix(cs, 0x6c656e)), 120_000, move |out| {
             if let Ok(b) = build_base(&b2) {
                 out.bump("len", b.len() as u64);
+                let mut mask = 0u64;
+                for (i, k) in KEYS.iter().enumerate() {
+                    if count_occ(&b, format!("/{}", k).as_bytes()) > 0 {
+                        mask |= 1 << i;
+                    }
+                }
+                out.bump("keys", mask);
             }
         });
-        o.counters.get("len").map(|l| *l as usize).unwrap_or(approx_len)
+        let mask = o.counters.get("keys").copied().unwrap_or(0);
+        (o.counters.get("len").map(|l| *l as usize).unwrap_or(approx_len), (0..KEYS.len()).filter(|i| mask >> i & 1 == 1).collect::<Vec<usize>>())
     };
     // swarm: per case either no stored fault (the intact corpus file) or 1–4 of them
     let nm = match r.below(10) {
@@ -745,13 +780,18 @@ fn gen_case(cs: u64, tier: Tier, ctx: &ExecCtx) -> Case {
         8 => 3,
         _ => 4,
     };
-    let mutations = (0..nm).map(|_| gen_mutation(&mut r, len_for_pos, structured)).collect();
+    let mutations: Vec<Mutation> = if sweep && !present.is_empty() {
+        let k = present[r.usize_below(present.len())];
+        vec![Mutation::KeySlot { key: KEYS[k].to_string(), nth: r.usize_below(16), value: BOUNDARY[r.usize_below(BOUNDARY.len())].to_string() }]
+    } else {
+        (0..nm).map(|_| gen_mutation(&mut r, len_for_pos, structured, &present)).collect()
+    };
     let mode = match r.below(10) {
         0..=5 => 0,
         6..=7 => 1,
         _ => 2,
     };
-    let source = gen_source_plan(&mut r, mode, 80, len_for_pos as u64);
+    let source = if sweep { SourcePlan::default() } else { gen_source_plan(&mut r, mode, 80, len_for_pos as u64) };
     Case {
         base,
         mutations,
@@ -788,6 +828,14 @@ fn object_numbers(img: &[u8]) -> Vec<(u32, u16)> {
             }
         }
         i += 1;
+    }
+    // objects that live only inside object streams have no header in the image: also ask for every
+    // small object number the file does not mention
+    let top = v.iter().map(|(n, _)| *n).filter(|n| *n < 96).max().unwrap_or(0) + 8;
+    for n in 0..=top.min(96) {
+        if !v.iter().any(|(m, _)| *m == n) {
+            v.push((n, 0));
+        }
     }
     v.sort();
     v.dedup();
@@ -949,6 +997,9 @@ impl Property for C01 {
             return total;
         }
         let objs = object_numbers(&img);
+        if let Ok(p) = std::env::var("VERIF_DUMP_IMAGE") {
+            let _ = std::fs::write(p, &**img); // debugging aid: the stored image of an explicit case
+        }
         total.bump(&format!("base.{}", format!("{:?}", c.base).split(|ch: char| !ch.is_alphanumeric()).next().unwrap_or("?")), 1);
         total.nontrivial = true;
         total.digest = fnv1a(&img);
